@@ -34,6 +34,7 @@ import (
 	"github.com/lightningnetwork/lnd/keychain"
 	"github.com/lightningnetwork/lnd/lnrpc/signrpc"
 	"github.com/lightningnetwork/lnd/lnrpc/verrpc"
+	"github.com/lightningnetwork/lnd/lnrpc/walletrpc"
 	"github.com/lightningnetwork/lnd/lnwallet/btcwallet"
 	"github.com/lightningnetwork/lnd/lnwallet/chainfee"
 )
@@ -71,6 +72,29 @@ type c04Params struct {
 	// after building the witness with the signing account's script / control
 	// block, substitute the chain account's (so only the signatures are foreign)
 	Rescript bool `json:"rescript"`
+
+	// renew / withdraw: version the re-created output is upgraded to
+	NewVersion uint8 `json:"new_version"`
+	// withdraw: also change the expiry (0 = keep)
+	NewExpiryDelta uint32 `json:"new_expiry_delta"`
+
+	// batch path: the trader's accounts taking part in the batch, in the
+	// order of Batch.AccountDiffs (all share Auct and Batch)
+	Accts        []c04BatchAcct `json:"accts,omitempty"`
+	BatchVersion uint32         `json:"batch_version"`
+}
+
+// c04BatchAcct is one account of a batch with the diff the auctioneer sends.
+type c04BatchAcct struct {
+	Version       uint8  `json:"version"`
+	Trader        string `json:"trader"`
+	BatchInc      int    `json:"batch_inc"`
+	Secret        string `json:"secret"`
+	Expiry        uint32 `json:"expiry"`
+	Value         int64  `json:"value"`
+	NewExpiry     uint32 `json:"new_expiry"`  // AccountDiff.NewExpiry (0 = unchanged)
+	NewVersion    uint8  `json:"new_version"` // AccountDiff.NewVersion
+	EndingBalance int64  `json:"ending_balance"`
 }
 
 type c04Keys struct {
@@ -428,6 +452,88 @@ func (w *c04Wallet) SignPsbt(_ context.Context, packet *psbt.Packet) (*psbt.Pack
 	return packet, nil
 }
 
+var c04WalletUtxo = wire.OutPoint{Hash: [32]byte{7, 7}, Index: 3}
+
+const c04WalletUtxoValue = 10_000_000
+
+func (w *c04Wallet) walletScript() []byte {
+	s, err := txscript.NewScriptBuilder().AddOp(txscript.OP_0).
+		AddData(btcutil.Hash160(w.priv.PubKey().SerializeCompressed())).Script()
+	if err != nil {
+		panic(err)
+	}
+	return s
+}
+
+// FundPsbt plays lnd's coin selection: one p2wkh wallet input and a change
+// output are added to the template.
+func (w *c04Wallet) FundPsbt(_ context.Context, req *walletrpc.FundPsbtRequest) (*psbt.Packet, int32,
+	[]*walletrpc.UtxoLease, error) {
+
+	tpl, err := psbt.NewFromRawBytes(bytes.NewReader(req.GetPsbt()), false)
+	if err != nil {
+		return nil, 0, nil, err
+	}
+	tx := tpl.UnsignedTx.Copy()
+	var out int64
+	for _, o := range tx.TxOut {
+		out += o.Value
+	}
+	if out+2000 > c04WalletUtxoValue {
+		return nil, 0, nil, errors.New("insufficient funds")
+	}
+	tx.TxIn = append(tx.TxIn, &wire.TxIn{PreviousOutPoint: c04WalletUtxo})
+	tx.TxOut = append(tx.TxOut, &wire.TxOut{Value: c04WalletUtxoValue - out - 1000, PkScript: w.walletScript()})
+	packet, err := psbt.NewFromUnsignedTx(tx)
+	if err != nil {
+		return nil, 0, nil, err
+	}
+	packet.Inputs[0].WitnessUtxo = &wire.TxOut{Value: c04WalletUtxoValue, PkScript: w.walletScript()}
+	packet.Inputs[0].SighashType = txscript.SigHashAll
+	return packet, int32(len(tx.TxOut) - 1), nil, nil
+}
+
+func (w *c04Wallet) ReleaseOutput(context.Context, wtxmgr.LockID, wire.OutPoint) error { return nil }
+
+// FinalizePsbt signs the wallet's own p2wkh inputs and extracts the tx.
+func (w *c04Wallet) FinalizePsbt(_ context.Context, packet *psbt.Packet, _ string) (*psbt.Packet,
+	*wire.MsgTx, error) {
+
+	tx := packet.UnsignedTx
+	fetcher := txscript.NewMultiPrevOutFetcher(nil)
+	for i, in := range tx.TxIn {
+		if packet.Inputs[i].WitnessUtxo == nil {
+			return nil, nil, fmt.Errorf("input %d without utxo", i)
+		}
+		fetcher.AddPrevOut(in.PreviousOutPoint, packet.Inputs[i].WitnessUtxo)
+	}
+	sh := txscript.NewTxSigHashes(tx, fetcher)
+	for i := range tx.TxIn {
+		in := &packet.Inputs[i]
+		if len(in.FinalScriptWitness) > 0 {
+			continue
+		}
+		if !bytes.Equal(in.WitnessUtxo.PkScript, w.walletScript()) {
+			return nil, nil, fmt.Errorf("input %d is not ours", i)
+		}
+		wit, err := txscript.WitnessSignature(tx, sh, i, in.WitnessUtxo.Value, in.WitnessUtxo.PkScript,
+			txscript.SigHashAll, w.priv, true)
+		if err != nil {
+			return nil, nil, err
+		}
+		var buf bytes.Buffer
+		if err := psbt.WriteTxWitness(&buf, wit); err != nil {
+			return nil, nil, err
+		}
+		in.FinalScriptWitness = buf.Bytes()
+	}
+	if err := psbt.MaybeFinalizeAll(packet); err != nil {
+		return nil, nil, err
+	}
+	final, err := psbt.Extract(packet)
+	return packet, final, err
+}
+
 type c04Store struct {
 	acct         *account.Account
 	pendingAsked bool
@@ -471,7 +577,7 @@ func (a *c04Auctioneer) StartAccountSubscription(context.Context, *keychain.KeyD
 	return nil
 }
 func (a *c04Auctioneer) Terms(context.Context) (*terms.AuctioneerTerms, error) {
-	return nil, errors.New("unused")
+	return &terms.AuctioneerTerms{MaxAccountValue: 10_0000_0000}, nil
 }
 
 func (a *c04Auctioneer) ModifyAccount(_ context.Context, acct *account.Account,
@@ -553,7 +659,8 @@ type c04Spend struct {
 	tx       *wire.MsgTx // input 0 spends the account output, witness set
 	idx      int
 	sigs     []*c04SigRec
-	buildErr string // Pool refused to build the spend
+	prevOuts []*wire.TxOut // outputs spent by the other inputs (nil = default)
+	buildErr string        // Pool refused to build the spend
 	poolWit  bool   // the witness was assembled by Pool's Spend* functions
 }
 
@@ -743,6 +850,10 @@ func c04Manager(p *c04Params) *c04Spend {
 		err error
 	)
 	feeRate := chainfee.SatPerKWeight(300)
+	newVersion := account.Version(p.NewVersion)
+	if newVersion < acct.Version {
+		newVersion = acct.Version
+	}
 	switch p.Path {
 	case "close":
 		tx, err = mgr.CloseAccount(context.Background(), acct.TraderKey.PubKey,
@@ -751,7 +862,22 @@ func c04Manager(p *c04Params) *c04Spend {
 			}, p.LockTime)
 	case "renew":
 		_, tx, err = mgr.RenewAccount(context.Background(), acct.TraderKey.PubKey,
-			p.LockTime+2000, feeRate, p.LockTime, acct.Version)
+			p.LockTime+2000, feeRate, p.LockTime, newVersion)
+	case "deposit":
+		newExpiry := uint32(0)
+		if p.NewExpiryDelta != 0 {
+			newExpiry = p.LockTime + p.NewExpiryDelta
+		}
+		_, tx, err = mgr.DepositAccount(context.Background(), acct.TraderKey.PubKey, 250_000, feeRate,
+			p.LockTime, newExpiry, newVersion)
+	case "withdraw":
+		newExpiry := uint32(0)
+		if p.NewExpiryDelta != 0 {
+			newExpiry = p.LockTime + p.NewExpiryDelta
+		}
+		_, tx, err = mgr.WithdrawAccount(context.Background(), acct.TraderKey.PubKey,
+			[]*wire.TxOut{{Value: 60_000, PkScript: append([]byte{0, 20}, make([]byte, 20)...)}},
+			feeRate, p.LockTime, newExpiry, newVersion)
 	}
 	if err != nil {
 		sp.buildErr = err.Error()
@@ -759,9 +885,12 @@ func c04Manager(p *c04Params) *c04Spend {
 	}
 	sp.tx = tx
 	sp.idx = 0
+	sp.prevOuts = make([]*wire.TxOut, len(tx.TxIn))
 	for i, in := range tx.TxIn {
 		if in.PreviousOutPoint == acct.OutPoint {
 			sp.idx = i
+		} else {
+			sp.prevOuts[i] = &wire.TxOut{Value: c04WalletUtxoValue, PkScript: wallet.walletScript()}
 		}
 	}
 	c04Describe(sp, sk, int64(sk.value))
@@ -801,87 +930,321 @@ func c04Describe(sp *c04Spend, sk *c04Keys, amount int64) {
 	}
 }
 
-// c04Batch builds a batch transaction spending the account, lets Pool's
-// batchSigner sign for the trader and plays the auctioneer for the rest.
-func c04Batch(p *c04Params) *c04Spend {
-	sk := p.signKeys()
-	acct := sk.acct(account.StateOpen)
-	spk := sk.pkScript()
-	amount := int64(sk.value)
+// c04RunBatch builds a batch transaction that spends several accounts of the
+// trader (mixed versions, in the order of Batch.AccountDiffs) and re-creates
+// them according to their diffs (ending balance, new expiry, new version,
+// next batch key). Pool's batchSigner signs for the trader; the harness plays
+// the auctioneer, who signs for each account's CURRENT on-chain output, and
+// assembles every witness with Pool's Spend* functions. Every account input
+// is then judged by the engine against its current on-chain output.
+func c04RunBatch(r *Run, p *c04Params) {
+	r.Evaluations++
+	r.Count("path/batch")
+	r.Count(fmt.Sprintf("batch/accounts-%d", len(p.Accts)))
+	type ent struct {
+		k    *c04Keys
+		acct *account.Account
+		key  [33]byte
+		a    *c04BatchAcct
+	}
+	auct := c04Priv(p.Auct)
+	var ents []*ent
+	byKey := map[[33]byte]*ent{}
+	mixedTapFirst, sawTap := false, false
+	for i := range p.Accts {
+		a := &p.Accts[i]
+		k := &c04Keys{trader: c04Priv(a.Trader), auct: auct, batchKey: c04BatchKey(p.Batch, a.BatchInc),
+			secret: c04Secret(a.Secret), expiry: a.Expiry, version: account.Version(a.Version),
+			value: btcutil.Amount(a.Value)}
+		e := &ent{k: k, acct: k.acct(account.StateOpen), a: a}
+		h := sha256.Sum256([]byte(a.Trader))
+		e.acct.OutPoint = wire.OutPoint{Hash: h, Index: uint32(i)}
+		e.acct.TraderKey.KeyLocator = keychain.KeyLocator{Family: poolscript.AccountKeyFamily, Index: uint32(i)}
+		copy(e.key[:], k.trader.PubKey().SerializeCompressed())
+		ents = append(ents, e)
+		byKey[e.key] = e
+		if a.Version > 0 {
+			sawTap = true
+		} else if sawTap {
+			mixedTapFirst = true
+		}
+		if a.NewExpiry != 0 {
+			r.Count("batch/new-expiry")
+		}
+		if a.NewVersion != a.Version {
+			r.Count("batch/new-version")
+		}
+	}
+	if mixedTapFirst {
+		r.Count("batch/taproot-before-legacy")
+	}
+
+	// the batch transaction
+	dummy := append([]byte{0, 20}, make([]byte, 20)...)
 	tx := wire.NewMsgTx(2)
 	tx.LockTime = p.LockTime
-	tx.TxIn = []*wire.TxIn{
-		{PreviousOutPoint: wire.OutPoint{Hash: [32]byte{9}, Index: 1}},
-		{PreviousOutPoint: acct.OutPoint},
+	prevByOp := map[wire.OutPoint]*wire.TxOut{}
+	other := wire.OutPoint{Hash: [32]byte{9}, Index: 1}
+	tx.TxIn = append(tx.TxIn, &wire.TxIn{PreviousOutPoint: other})
+	prevByOp[other] = &wire.TxOut{Value: 700_000, PkScript: dummy}
+	var diffs []*order.AccountDiff
+	fail := func(msg string) {
+		r.Count("build-error/batch")
+		r.Violate("Pool could not build the spend: "+msg, "C04/build-error", p)
 	}
-	tx.TxOut = []*wire.TxOut{{Value: amount - 1000, PkScript: append([]byte{0, 20}, make([]byte, 20)...)}}
-	otherOut := &wire.TxOut{Value: 5000, PkScript: append([]byte{0, 20}, make([]byte, 20)...)}
-	sp := &c04Spend{tx: tx, idx: 1, poolWit: true}
-
-	var acctKey [33]byte
-	copy(acctKey[:], acct.TraderKey.PubKey.SerializeCompressed())
+	for _, e := range ents {
+		tx.TxIn = append(tx.TxIn, &wire.TxIn{PreviousOutPoint: e.acct.OutPoint})
+		prevByOp[e.acct.OutPoint] = &wire.TxOut{Value: int64(e.k.value), PkScript: e.k.pkScript()}
+		mods := []account.Modifier{account.ValueModifier(btcutil.Amount(e.a.EndingBalance)),
+			account.IncrementBatchKey()}
+		if e.a.NewExpiry != 0 {
+			mods = append(mods, account.ExpiryModifier(e.a.NewExpiry))
+		}
+		if e.a.NewVersion > e.a.Version {
+			mods = append(mods, account.VersionModifier(account.Version(e.a.NewVersion)))
+		}
+		d := &order.AccountDiff{AccountKeyRaw: e.key, AccountKey: e.k.trader.PubKey(),
+			EndingBalance: btcutil.Amount(e.a.EndingBalance), NewExpiry: e.a.NewExpiry,
+			NewVersion: account.Version(e.a.NewVersion), OutpointIndex: -1}
+		if e.a.EndingBalance > 0 {
+			out, err := e.acct.Copy(mods...).Output()
+			if err != nil {
+				fail(err.Error())
+				return
+			}
+			tx.TxOut = append(tx.TxOut, out)
+		}
+		diffs = append(diffs, d)
+	}
+	tx.TxOut = append(tx.TxOut, &wire.TxOut{Value: 400_000, PkScript: append([]byte{0, 32}, make([]byte, 32)...)})
+	txsort.InPlaceSort(tx)
+	prevOuts := make([]*wire.TxOut, len(tx.TxIn))
+	idxOf := map[wire.OutPoint]int{}
+	for i, in := range tx.TxIn {
+		prevOuts[i] = prevByOp[in.PreviousOutPoint]
+		idxOf[in.PreviousOutPoint] = i
+	}
 	batch := &order.Batch{
-		AccountDiffs:    []*order.AccountDiff{{AccountKey: acct.TraderKey.PubKey}},
-		BatchTX:         tx,
-		PreviousOutputs: []*wire.TxOut{otherOut, {Value: amount, PkScript: spk}},
-		ServerNonces:    order.AccountNonces{},
-	}
-	traderSigner := newC04Signer(sk.trader)
-	bs := order.VerifNewBatchSigner(func(*btcec.PublicKey) (*account.Account, error) {
-		return acct, nil
-	}, traderSigner)
-
-	if sk.version >= account.VersionTaprootEnabled {
-		// auctioneer opens its session first and sends its nonces
-		as := newC04Signer(sk.auct)
-		aSess, _, err := poolscript.TaprootMuSig2SigningSession(context.Background(), sk.scriptVersion(),
-			sk.expiry, sk.trader.PubKey(), sk.batchKey, sk.secret, sk.auct.PubKey(), as,
-			&keychain.KeyLocator{}, nil)
-		if err != nil {
-			sp.buildErr = err.Error()
-			return sp
-		}
-		batch.ServerNonces[acctKey] = aSess.PublicNonce
-		sigs, nonces, err := bs.Sign(batch)
-		if err != nil {
-			sp.buildErr = err.Error()
-			return sp
-		}
-		var tn poolscript.MuSig2Nonces = nonces[acctKey]
-		var tp [input.MuSig2PartialSigSize]byte
-		copy(tp[:], sigs[acctKey])
-		final, err := poolscript.TaprootMuSig2Sign(context.Background(), 1, aSess, as, tx,
-			batch.PreviousOutputs, &tn, &tp)
-		if err != nil {
-			sp.buildErr = err.Error()
-			return sp
-		}
-		tx.TxIn[1].Witness = poolscript.SpendMuSig2Taproot(final)
-		sp.sigs = []*c04SigRec{{sig: final, pk: schnorr.SerializePubKey(func() *btcec.PublicKey {
-			agg, _, _ := sk.taproot()
-			return agg.FinalKey
-		}()), ver: 1, tx: c04TxTagMulti(tx, batch.PreviousOutputs, 1), ht: 0}}
-		return sp
+		Version: order.BatchVersion(p.BatchVersion), AccountDiffs: diffs, BatchTX: tx,
+		PreviousOutputs: prevOuts, ServerNonces: order.AccountNonces{}, HeightHint: 100,
 	}
 
-	sigs, _, err := bs.Sign(batch)
+	// auctioneer: one MuSig2 session per taproot account, for the parameters
+	// of the output that is on chain now
+	aSigner := newC04Signer(auct)
+	sess := map[[33]byte]*input.MuSig2SessionInfo{}
+	for _, e := range ents {
+		if e.k.version >= account.VersionTaprootEnabled {
+			si, _, err := poolscript.TaprootMuSig2SigningSession(context.Background(), e.k.scriptVersion(),
+				e.k.expiry, e.k.trader.PubKey(), e.k.batchKey, e.k.secret, auct.PubKey(), aSigner,
+				&keychain.KeyLocator{}, nil)
+			if err != nil {
+				fail(err.Error())
+				return
+			}
+			sess[e.key] = si
+			batch.ServerNonces[e.key] = si.PublicNonce
+		}
+	}
+
+	// the trader: Pool's batch signer over a signer that knows all its keys
+	tSigner := &c04MultiSigner{byPub: map[string]*c04Signer{}}
+	for _, e := range ents {
+		s := newC04Signer(e.k.trader)
+		tSigner.byPub[string(e.key[:])] = s
+		tSigner.locs = append(tSigner.locs, s)
+	}
+	bs := order.VerifC04NewBatchSigner(func(k *btcec.PublicKey) (*account.Account, error) {
+		var kk [33]byte
+		copy(kk[:], k.SerializeCompressed())
+		e, ok := byKey[kk]
+		if !ok {
+			return nil, errors.New("no such account")
+		}
+		return e.acct.Copy(), nil
+	}, tSigner)
+	var (
+		sigs   order.BatchSignature
+		nonces order.AccountNonces
+		err    error
+	)
+	func() {
+		defer func() {
+			if x := recover(); x != nil {
+				err = fmt.Errorf("panic: %v", x)
+			}
+		}()
+		sigs, nonces, err = bs.Sign(batch)
+	}()
 	if err != nil {
-		sp.buildErr = err.Error()
-		return sp
+		fail("batchSigner.Sign: " + err.Error())
+		return
 	}
-	tSig := append(append([]byte{}, sigs[acctKey]...), byte(txscript.SigHashAll))
-	code := sk.witnessScript()
-	aRec := c04SignV0(tx, 1, amount, spk, code, sk.tweakedAuctPriv(), txscript.SigHashAll)
-	tx.TxIn[1].Witness = poolscript.SpendMultiSig(code, tSig, aRec.sig)
-	sp.sigs = []*c04SigRec{aRec, {sig: tSig, pk: sk.tweakedTrader().SerializeCompressed(), ver: 0,
-		tx: c04TxTag(0, tx, amount, spk), code: code, ht: int(txscript.SigHashAll)}}
-	return sp
+
+	// assemble and judge every account input
+	for _, e := range ents {
+		idx := idxOf[e.acct.OutPoint]
+		amount := int64(e.k.value)
+		spk := e.k.pkScript()
+		sp := &c04Spend{tx: tx, idx: idx, poolWit: true}
+		pj := &c04Params{Path: "batch", Kind: "joint", Version: e.a.Version, Trader: e.a.Trader, Auct: p.Auct,
+			Batch: p.Batch, BatchInc: e.a.BatchInc, Secret: e.a.Secret, Expiry: e.a.Expiry, Value: e.a.Value,
+			LockTime: p.LockTime}
+		r.Count(fmt.Sprintf("version/%d", e.a.Version))
+		released, ok := sigs[e.key]
+		if !ok || len(released) == 0 {
+			r.Count("oracle/violation")
+			r.Violate(fmt.Sprintf("batch signer released no signature for account input %d (version %d) of the batch",
+				idx, e.a.Version), "C04/batch-missing-sig", p)
+			continue
+		}
+		if e.k.version >= account.VersionTaprootEnabled {
+			var tn poolscript.MuSig2Nonces = nonces[e.key]
+			var tp [input.MuSig2PartialSigSize]byte
+			if len(released) != len(tp) {
+				r.Count("oracle/violation")
+				r.Violate(fmt.Sprintf("signature released for taproot account input %d is %d bytes, not a MuSig2 "+
+					"partial signature", idx, len(released)), "C04/batch-sig-shape", p)
+				continue
+			}
+			copy(tp[:], released)
+			final, err := poolscript.TaprootMuSig2Sign(context.Background(), idx, sess[e.key], aSigner, tx,
+				prevOuts, &tn, &tp)
+			if err != nil {
+				r.Count("oracle/violation")
+				r.Violate(fmt.Sprintf("the trader's MuSig2 partial signature for account input %d (version %d, "+
+					"expiry %d, diff new expiry %d) does not combine into a valid signature for the current "+
+					"on-chain output: %v", idx, e.a.Version, e.a.Expiry, e.a.NewExpiry, err),
+					"C04/batch-musig2", p)
+				continue
+			}
+			tx.TxIn[idx].Witness = poolscript.SpendMuSig2Taproot(final)
+			agg, _, _ := e.k.taproot()
+			sp.sigs = []*c04SigRec{{sig: final, pk: schnorr.SerializePubKey(agg.FinalKey), ver: 1,
+				tx: c04TxTag(1, tx, amount, spk), ht: 0}}
+		} else {
+			tSig := append(append([]byte{}, released...), byte(txscript.SigHashAll))
+			code := e.k.witnessScript()
+			aRec := c04SignV0Multi(tx, idx, prevOuts, code, e.k.tweakedAuctPriv())
+			tx.TxIn[idx].Witness = poolscript.SpendMultiSig(code, tSig, aRec.sig)
+			sp.sigs = []*c04SigRec{aRec, {sig: tSig, pk: e.k.tweakedTrader().SerializeCompressed(), ver: 0,
+				tx: c04TxTag(0, tx, amount, spk), code: code, ht: int(txscript.SigHashAll)}}
+		}
+		c04Judge(r, pj, p, e.k, sp, amount, prevOuts)
+	}
 }
 
-// c04TxTagMulti: tag for multi-input taproot spends (all prevouts are
-// committed); reduces to c04TxTag's meaning for the verified input.
-func c04TxTagMulti(tx *wire.MsgTx, prev []*wire.TxOut, idx int) string {
-	return c04TxTag(1, tx, prev[idx].Value, prev[idx].PkScript)
+// c04SignV0Multi: BIP143 signature for input idx of a multi-input tx.
+func c04SignV0Multi(tx *wire.MsgTx, idx int, prevOuts []*wire.TxOut, code []byte,
+	priv *btcec.PrivateKey) *c04SigRec {
+
+	fetcher := txscript.NewMultiPrevOutFetcher(nil)
+	for i, in := range tx.TxIn {
+		fetcher.AddPrevOut(in.PreviousOutPoint, prevOuts[i])
+	}
+	sh := txscript.NewTxSigHashes(tx, fetcher)
+	sig, err := txscript.RawTxInWitnessSignature(tx, sh, idx, prevOuts[idx].Value, code, txscript.SigHashAll, priv)
+	if err != nil {
+		panic(err)
+	}
+	return &c04SigRec{sig: sig, pk: priv.PubKey().SerializeCompressed(), ver: 0,
+		tx: c04TxTag(0, tx, prevOuts[idx].Value, prevOuts[idx].PkScript), code: code, ht: int(txscript.SigHashAll)}
+}
+
+// c04MultiSigner routes signer calls to the key named by the key descriptor /
+// key locator index (one lnd node holding several account keys).
+type c04MultiSigner struct {
+	lndclient.SignerClient
+	byPub map[string]*c04Signer
+	locs  []*c04Signer
+	sess  map[[32]byte]*c04Signer
+}
+
+func (m *c04MultiSigner) pick(loc keychain.KeyLocator, pub *btcec.PublicKey) (*c04Signer, error) {
+	if pub != nil {
+		if s, ok := m.byPub[string(pub.SerializeCompressed())]; ok {
+			return s, nil
+		}
+	}
+	if int(loc.Index) < len(m.locs) {
+		return m.locs[loc.Index], nil
+	}
+	return nil, errors.New("c04MultiSigner: unknown key")
+}
+
+func (m *c04MultiSigner) SignOutputRaw(ctx context.Context, tx *wire.MsgTx,
+	descs []*lndclient.SignDescriptor, prev []*wire.TxOut) ([][]byte, error) {
+
+	var res [][]byte
+	for _, d := range descs {
+		s, err := m.pick(d.KeyDesc.KeyLocator, d.KeyDesc.PubKey)
+		if err != nil {
+			return nil, err
+		}
+		x, err := s.SignOutputRaw(ctx, tx, []*lndclient.SignDescriptor{d}, prev)
+		if err != nil {
+			return nil, err
+		}
+		res = append(res, x...)
+	}
+	return res, nil
+}
+
+func (m *c04MultiSigner) MuSig2CreateSession(ctx context.Context, version input.MuSig2Version,
+	loc *keychain.KeyLocator, signers [][]byte,
+	opts ...lndclient.MuSig2SessionOpts) (*input.MuSig2SessionInfo, error) {
+
+	s, err := m.pick(*loc, nil)
+	if err != nil {
+		return nil, err
+	}
+	si, err := s.MuSig2CreateSession(ctx, version, loc, signers, opts...)
+	if err == nil {
+		if m.sess == nil {
+			m.sess = map[[32]byte]*c04Signer{}
+		}
+		m.sess[si.SessionID] = s
+	}
+	return si, err
+}
+
+func (m *c04MultiSigner) of(id [32]byte) (*c04Signer, error) {
+	if s, ok := m.sess[id]; ok {
+		return s, nil
+	}
+	return nil, errors.New("c04MultiSigner: unknown session")
+}
+
+func (m *c04MultiSigner) MuSig2RegisterNonces(ctx context.Context, id [32]byte, n [][66]byte) (bool, error) {
+	s, err := m.of(id)
+	if err != nil {
+		return false, err
+	}
+	return s.MuSig2RegisterNonces(ctx, id, n)
+}
+
+func (m *c04MultiSigner) MuSig2Sign(ctx context.Context, id [32]byte, msg [32]byte, c bool) ([]byte, error) {
+	s, err := m.of(id)
+	if err != nil {
+		return nil, err
+	}
+	return s.MuSig2Sign(ctx, id, msg, c)
+}
+
+func (m *c04MultiSigner) MuSig2CombineSig(ctx context.Context, id [32]byte, o [][]byte) (bool, []byte, error) {
+	s, err := m.of(id)
+	if err != nil {
+		return false, nil, err
+	}
+	return s.MuSig2CombineSig(ctx, id, o)
+}
+
+func (m *c04MultiSigner) MuSig2Cleanup(ctx context.Context, id [32]byte) error {
+	s, err := m.of(id)
+	if err != nil {
+		return err
+	}
+	return s.MuSig2Cleanup(ctx, id)
 }
 
 // ---------------------------------------------------------------------------
@@ -968,6 +1331,10 @@ func c04B(b bool) string {
 // c04Run executes one case: builds the spend, runs the real engine on the
 // chain account's output, emits the model op and evaluates the oracle.
 func c04Run(r *Run, p *c04Params) {
+	if p.Path == "batch" {
+		c04RunBatch(r, p)
+		return
+	}
 	ck := p.chainKeys()
 	var sp *c04Spend
 	func() {
@@ -982,10 +1349,8 @@ func c04Run(r *Run, p *c04Params) {
 		switch p.Path {
 		case "direct":
 			sp = c04Direct(p)
-		case "close", "renew":
+		case "close", "renew", "withdraw", "deposit":
 			sp = c04Manager(p)
-		case "batch":
-			sp = c04Batch(p)
 		default:
 			sp = &c04Spend{buildErr: "unknown path"}
 		}
@@ -997,11 +1362,26 @@ func c04Run(r *Run, p *c04Params) {
 		r.Count("build-error/" + p.Path)
 		// Pool refusing to build a spend is only acceptable for the cases
 		// where it must refuse.
-		expectRefusal := (p.Path == "renew" && false)
+		// (withdrawals from an expired account are documented as unsupported)
+		sk := p.signKeys()
+		expectRefusal := (p.Path == "withdraw" || p.Path == "deposit") &&
+			(p.StateExpired || p.LockTime >= sk.expiry)
 		if !expectRefusal {
 			r.Violate("Pool could not build the spend: "+sp.buildErr, "C04/build-error", p)
+		} else {
+			r.Count("refused/" + p.Path + "-expired")
+			if !p.StateExpired {
+				r.Emit(fmt.Sprintf("C04 mgrlock %d %d %d %d 0", p.Version, account.StateOpen, sk.expiry, p.LockTime), "err")
+				r.Count("mgrlock")
+			}
 		}
 		return
+	}
+	if p.Path == "withdraw" || p.Path == "deposit" {
+		sk := p.signKeys()
+		r.Emit(fmt.Sprintf("C04 mgrlock %d %d %d %d 0", p.Version, account.StateOpen, sk.expiry, p.LockTime),
+			fmt.Sprintf("%d %d", sp.tx.LockTime, sp.tx.TxIn[sp.idx].Sequence))
+		r.Count("mgrlock")
 	}
 
 	if p.Path == "close" {
@@ -1015,11 +1395,20 @@ func c04Run(r *Run, p *c04Params) {
 		r.Count("mgrlock")
 	}
 
-	// manager paths with rescript: swap in the chain account's script
 	amount := int64(ck.value)
 	if p.Path == "direct" {
 		amount = c04Amount
 	}
+	c04Judge(r, p, p, ck, sp, amount, sp.prevOuts)
+}
+
+// c04Judge runs the real engine on input sp.idx of sp.tx against the chain
+// account's CURRENT on-chain output, emits the model op and evaluates the
+// oracle. prevOuts (optional) are the outputs spent by all inputs.
+func c04Judge(r *Run, p *c04Params, replay interface{}, ck *c04Keys, sp *c04Spend, amount int64,
+	prevOuts []*wire.TxOut) {
+
+	// manager paths with rescript: swap in the chain account's script
 	pkScript := ck.pkScript()
 	w := sp.tx.TxIn[sp.idx].Witness
 	if p.Rescript && p.Path != "direct" {
@@ -1036,6 +1425,8 @@ func c04Run(r *Run, p *c04Params) {
 	for i, in := range sp.tx.TxIn {
 		if i == sp.idx {
 			prevs.AddPrevOut(in.PreviousOutPoint, &wire.TxOut{Value: amount, PkScript: pkScript})
+		} else if prevOuts != nil {
+			prevs.AddPrevOut(in.PreviousOutPoint, prevOuts[i])
 		} else {
 			prevs.AddPrevOut(in.PreviousOutPoint, &wire.TxOut{Value: 5000,
 				PkScript: append([]byte{0, 20}, make([]byte, 20)...)})
@@ -1107,7 +1498,7 @@ func c04Run(r *Run, p *c04Params) {
 	default:
 		expect, what = "valid", "a spend signed by trader and auctioneer must be valid at any lock time"
 	}
-	if (p.Path == "close" || p.Path == "renew") && !foreign && expect == "invalid" &&
+	if (p.Path == "close" || p.Path == "renew" || p.Path == "withdraw" || p.Path == "deposit") && !foreign && expect == "invalid" &&
 		!(p.StateExpired && p.LockTime < p.Expiry) {
 		// Pool's own spend of its own account must be valid, except in the
 		// stated corner (State == Expired handed a best height below expiry)
@@ -1117,7 +1508,7 @@ func c04Run(r *Run, p *c04Params) {
 	if (expect == "valid") != ok {
 		r.Count("oracle/violation")
 		r.Violate(fmt.Sprintf("%s; engine verdict %s (path %s, kind %s, version %d, expiry %d, lock time %d)",
-			what, verdict, p.Path, p.Kind, p.Version, p.Expiry, lockTime), "C04/spend", p)
+			what, verdict, p.Path, p.Kind, p.Version, p.Expiry, lockTime), "C04/spend", replay)
 	}
 	// classification: a Pool-built witness is classified like the path it takes
 	if sp.poolWit && p.Expiry < 1<<23 && p.signKeys().expiry < 1<<23 {
@@ -1128,14 +1519,14 @@ func c04Run(r *Run, p *c04Params) {
 		if hc := c04HandlerClass(ck, sp.tx, sp.idx); hc != class {
 			r.Count("oracle/violation")
 			r.Violate(fmt.Sprintf("manager.HandleAccountSpend takes the %s branch for a witness the classifiers "+
-				"put in %s (version %d, expiry %d)", hc, class, p.Version, p.Expiry), "C04/handler", p)
+				"put in %s (version %d, expiry %d)", hc, class, p.Version, p.Expiry), "C04/handler", replay)
 		} else {
 			r.Count("handler/" + hc)
 		}
 		if class != want {
 			r.Count("oracle/violation")
 			r.Violate(fmt.Sprintf("handler classifies a Pool-built %s spend as %s (version %d, expiry %d)",
-				want, class, p.Version, p.Expiry), "C04/classification", p)
+				want, class, p.Version, p.Expiry), "C04/classification", replay)
 		}
 		r.Count("class/" + class)
 	}
@@ -1200,12 +1591,16 @@ func c04Gen(r *Run) *c04Params {
 	lts := []uint32{p.Expiry - 1, p.Expiry, p.Expiry + 1}
 	p.LockTime = lts[r.Rng.Intn(3)]
 	switch x := r.Rng.Intn(100); {
-	case x < 45:
+	case x < 40:
 		p.Path = "direct"
-	case x < 70:
+	case x < 60:
 		p.Path = "close"
-	case x < 82:
+	case x < 70:
 		p.Path = "renew"
+	case x < 76:
+		p.Path = "withdraw"
+	case x < 82:
+		p.Path = "deposit"
 	default:
 		p.Path = "batch"
 	}
@@ -1241,11 +1636,54 @@ func c04Gen(r *Run) *c04Params {
 				p.LockTime = p.Expiry - 1
 			}
 		}
+	case "withdraw", "deposit":
+		p.Kind = "manager"
+		if r.Rng.Intn(3) != 0 && p.LockTime >= p.Expiry {
+			p.LockTime = p.Expiry - 1
+		}
+		if r.Rng.Intn(2) == 0 {
+			p.NewExpiryDelta = uint32(1000 + r.Rng.Intn(3000))
+		}
 	case "batch":
 		p.Kind = "joint"
-		p.LockTime = 0
+		p.LockTime = []uint32{0, 0, uint32(r.Rng.Intn(1 << 20))}[r.Rng.Intn(3)]
+		p.BatchVersion = uint32(order.LatestBatchVersion)
+		if r.Rng.Intn(8) == 0 {
+			p.BatchVersion = uint32([]order.BatchVersion{order.DefaultBatchVersion, order.ExtendAccountBatchVersion,
+				order.UpgradeAccountTaprootBatchVersion}[r.Rng.Intn(3)])
+		}
+		n := 1 + r.Rng.Intn(4)
+		for i := 0; i < n; i++ {
+			a := c04BatchAcct{Version: uint8(r.Rng.Intn(3)), Trader: c04RandHex(r, 32),
+				BatchInc: p.BatchInc, Secret: c04RandHex(r, 32), Expiry: c04Expiry(r),
+				Value: 500_000 + int64(r.Rng.Intn(5_000_000))}
+			if i == 0 {
+				a.Version, a.Expiry = p.Version, p.Expiry
+			}
+			a.NewVersion = a.Version
+			if order.BatchVersion(p.BatchVersion).SupportsAccountTaprootUpgrade() && r.Rng.Intn(3) == 0 {
+				a.NewVersion = a.Version + uint8(r.Rng.Intn(int(3-a.Version)))
+				if a.NewVersion == 2 && !order.BatchVersion(p.BatchVersion).SupportsAccountTaprootV2Upgrade() {
+					a.NewVersion = a.Version
+				}
+			}
+			if order.BatchVersion(p.BatchVersion).SupportsAccountExtension() && r.Rng.Intn(2) == 0 {
+				a.NewExpiry = a.Expiry + uint32(1+r.Rng.Intn(4000))
+			}
+			a.EndingBalance = a.Value - int64(1000+r.Rng.Intn(200_000))
+			if r.Rng.Intn(10) == 0 {
+				a.EndingBalance = 0
+			}
+			p.Accts = append(p.Accts, a)
+		}
 	}
-	if (p.Kind == "joint" || p.Kind == "expiry" || p.Kind == "manager") && r.Rng.Intn(4) == 0 {
+	if p.Path == "renew" || p.Path == "withdraw" || p.Path == "deposit" {
+		p.NewVersion = p.Version
+		if r.Rng.Intn(3) == 0 {
+			p.NewVersion = p.Version + uint8(r.Rng.Intn(int(3-p.Version)))
+		}
+	}
+	if (p.Kind == "joint" || p.Kind == "expiry" || p.Kind == "manager") && p.Path != "batch" && r.Rng.Intn(4) == 0 {
 		p.Foreign = []string{"batchkey", "secret", "expiry"}[r.Rng.Intn(3)]
 		p.ForeignBatchInc = p.BatchInc + 1 + r.Rng.Intn(3)
 		p.ForeignSecret = c04RandHex(r, 32)
@@ -1331,7 +1769,7 @@ func c04Scripts(r *Run) {
 func c04ClassifyOp(r *Run, w wire.TxWitness) {
 	out := c04B(poolscript.IsExpirySpend(w)) + c04B(poolscript.IsTaprootExpirySpend(w)) +
 		c04B(poolscript.IsMultiSigSpend(w)) + c04B(poolscript.IsTaprootMultiSigSpend(w)) +
-		c04B(poolscript.VerifHasAnnex(w)) + " " + c04Classify(w)
+		c04B(poolscript.VerifC04HasAnnex(w)) + " " + c04Classify(w)
 	r.Emit("C04 classify "+c04Witness(w), out)
 	r.Count("pure/classify")
 }
